@@ -91,6 +91,16 @@ def check_item(ctx, R, k, label, wit):
     rec = getattr(it.entity, "record", None)
     if rec is None or rec.id != k:
         ctx.violation("record-id-differs-from-key:" + label.split(":")[0], "%s: R[%r].entity.record.id is %r" % (label, k, getattr(rec, "id", None)), key=k, **wit)
+    # the item's own accessor for the record it holds (`Item.record`) must show that same circular record
+    try:
+        rec2 = it.record
+    except Exception as e:
+        ctx.violation("item-record-accessor-raises:%s" % type(e).__name__, "%s: R[%r].record raised %s: %s" % (label, k, type(e).__name__, str(e)[:120]), key=k, **wit)
+    else:
+        ctx.count("c20_item_record_accessor_read")
+        if not isinstance(rec2, CircularRecord) or rec2.id != k or (rec is not None and str(rec2.seq) != str(rec.seq)):
+            ctx.violation("item-record-accessor-differs:" + label.split(":")[0], "%s: R[%r].record is a %s with id %r, not the circular record %r the entity holds" % (
+                label, k, type(rec2).__name__, getattr(rec2, "id", None), k), key=k, **wit)
     if not isinstance(rec, CircularRecord):
         ctx.violation("record-not-circular:" + label.split(":")[0], "%s: R[%r] holds a %s" % (label, k, type(rec).__name__), key=k, **wit)
     else:
